@@ -1126,6 +1126,20 @@ func (vc *VC) havocLvalue(env *Env, st *State, lv SExpr) {
 	case *SCall:
 		if id, ok := x.Fun.(*SIdent); ok {
 			switch id.Name {
+			case "all":
+				// all(g): every entry of ghost function g may change
+				if g, ok := x.Args[0].(*SIdent); ok {
+					if sf := vc.eng.ss.SpecFuncs[g.Name]; sf != nil && sf.Ghost {
+						name := "G_" + sf.Name
+						if cur, ok := st.mem[name]; ok {
+							st.mem[name] = vc.q.Fresh(name+"$all", cur.Sort)
+						} else if srt, ok := vc.memSorts[name]; ok {
+							st.mem[name] = vc.q.Fresh(name+"$all", srt)
+						}
+						return
+					}
+				}
+				env.fail("all() needs a ghost function name")
 			case "elems", "obj":
 				v, vt := vc.specExpr(env, x.Args[0])
 				r := vc.rootOfValue(env, v, vt)
